@@ -11,6 +11,7 @@ import (
 	"go/types"
 	"os"
 	"path/filepath"
+	"regexp"
 	"sort"
 	"strings"
 
@@ -31,12 +32,19 @@ type Prog struct {
 	ByPath  map[string]*ssa.Package
 	PkgByP  map[string]*packages.Package
 
-	srcFuncs []*ssa.Function
-	parents  map[*ssa.Function]*ssa.MakeClosure
-	deadLits map[*ssa.Function]bool // literals whose every call was inlined (flatten.go)
-	cells    map[*ssa.Alloc]*cellInfo
-	exprMemo map[ssa.Value]*Expr
-	vtaEdges map[ssa.CallInstruction][]*ssa.Function
+	srcFuncs    []*ssa.Function
+	parents     map[*ssa.Function]*ssa.MakeClosure
+	deadLits    map[*ssa.Function]bool   // literals whose every call was inlined (flatten.go)
+	litNames    map[*ssa.Function]string // literals made from methods of a local state struct: the method's name (flatten.go)
+	renamedTo   map[*ssa.Function]string // declared functions that answer to an anchor name the tree no longer has
+	renamedFrom map[string]*ssa.Function
+	fieldAlias  map[*types.Var]string // renamed struct fields: the name they are recorded under (layouts.go)
+	typeAlias   map[string]string     // renamed struct types: short qualified new name -> recorded name
+	typeAliasRe *regexp.Regexp
+	varAlias    map[*types.Var]string // renamed unexported package-level variables
+	cells       map[*ssa.Alloc]*cellInfo
+	exprMemo    map[ssa.Value]*Expr
+	vtaEdges    map[ssa.CallInstruction][]*ssa.Function
 
 	// Flattened lists the inlining steps applied (caller <- callee).
 	Flattened   []string
@@ -119,10 +127,12 @@ func LoadEnv(dir string, extraEnv []string, patterns ...string) (*Prog, error) {
 		if err != nil {
 			return nil, fmt.Errorf("load: %v", err)
 		}
+		renames := append(p.resolveLayouts(), p.resolveRenames(anchors)...)
 		log, err := p.Flatten(anchors)
 		if err != nil {
 			return nil, err
 		}
+		log = append(renames, log...)
 		p.Flattened = log
 		p.anchors = anchors
 		if len(log) > 0 {
@@ -229,6 +239,46 @@ func (p *Prog) Func(pkgPath, name string) *ssa.Function {
 	if sp == nil {
 		return nil
 	}
+	if fn := p.funcByName(sp, name); fn != nil {
+		return fn
+	}
+	// renamed? (anchor names are written with the short package name)
+	short := p.shorten(pkgPath)
+	key := short + "." + name
+	if strings.HasPrefix(name, "(*") {
+		key = "(*" + short + "." + name[2:]
+	} else if strings.HasPrefix(name, "(") {
+		key = "(" + short + "." + name[1:]
+	}
+	if fn := p.renamedFrom[key]; fn != nil {
+		return fn
+	}
+	// (anchor names of generic types carry the type parameters: (*ech.Dialer[T]).Dial)
+	for old, fn := range p.renamedFrom {
+		if stripTypeParams(old) == key {
+			return fn
+		}
+	}
+	return nil
+}
+
+func stripTypeParams(s string) string {
+	var sb strings.Builder
+	depth := 0
+	for _, r := range s {
+		switch {
+		case r == '[':
+			depth++
+		case r == ']' && depth > 0:
+			depth--
+		case depth == 0:
+			sb.WriteRune(r)
+		}
+	}
+	return sb.String()
+}
+
+func (p *Prog) funcByName(sp *ssa.Package, name string) *ssa.Function {
 	if !strings.HasPrefix(name, "(") {
 		return sp.Func(name)
 	}
@@ -387,10 +437,22 @@ func (p *Prog) FuncName(fn *ssa.Function) string {
 	if o := fn.Origin(); o != nil {
 		fn = o
 	}
+	// (a renamed function is known to the rules by the name it is recorded under)
+	if old, ok := p.renamedTo[fn]; ok {
+		return old
+	}
 	return p.shorten(fn.String())
 }
 
 func (p *Prog) shorten(s string) string {
+	s = p.rawShorten(s)
+	if p.typeAliasRe != nil {
+		s = p.typeAliasRe.ReplaceAllStringFunc(s, func(m string) string { return p.typeAlias[m] })
+	}
+	return s
+}
+
+func (p *Prog) rawShorten(s string) string {
 	if p.ModPath != "" {
 		s = strings.ReplaceAll(s, p.ModPath+"/internal/hpke", "hpke")
 		s = strings.ReplaceAll(s, p.ModPath+"/dns", "dns")
